@@ -13,7 +13,7 @@ Definition inline_outline_at (s : schema) (c : cas) : Prop :=
    c1' the same CAS with the ids the save assigned.  What the JSON reader builds from j, seen in the XMI view, is the
    XMI view of c1': views, sofa data, feature structures, ids, values, reference structure, offsets, membership. *)
 Theorem xmi_json_xmi L s mode c1 j c1' :
-  lex_ok L -> save_json L s mode c1 = Ok (j, c1') -> wf_jsonb s c1' = true -> stableb L s c1 = true ->
+  lex_ok L -> save_json L s mode c1 = Ok (j, c1') -> wf_jsonb s c1' = true -> 0 < c_next_id c1 ->
   load_json L s j = denote_json L s j ->            (* reader = denotation on j (C05; evaluated per case) *)
   inline_outline_at s c1' ->
   (do x <- load_json L s j ;; inline_of s x) = Xmi.canon_xmi s c1'.
@@ -23,7 +23,7 @@ Qed.
 
 (* the JSON leg alone, in the JSON view (stronger: collections keep their ids) *)
 Theorem json_leg_preserves L s mode c1 j c1' :
-  lex_ok L -> save_json L s mode c1 = Ok (j, c1') -> wf_jsonb s c1' = true -> stableb L s c1 = true ->
+  lex_ok L -> save_json L s mode c1 = Ok (j, c1') -> wf_jsonb s c1' = true -> 0 < c_next_id c1 ->
   load_json L s j = denote_json L s j -> load_json L s j = canon_json s c1'.
 Proof. exact (json_roundtrip_given_reader L s mode c1 j c1'). Qed.
 
@@ -50,7 +50,7 @@ Corollary conversion_documents_agree L s mode (fmt_flt : flt -> string) (parse_f
   lex_ok L -> (forall f, parse_flt (fmt_flt f) = Some f) -> (forall f, Lex.tok_ok (fmt_flt f)) ->
   Xmi.save_xmi fmt_flt s c = Ok (x, c') ->
   (forall all, Xmi.written s c = Ok (c', all) -> Xmi.wf_xmib s c' all = true) ->
-  save_json L s mode c = Ok (j, c'') -> wf_jsonb s c'' = true -> stableb L s c = true ->
+  save_json L s mode c = Ok (j, c'') -> wf_jsonb s c'' = true -> 0 < c_next_id c ->
   inline_outline_at s c'' -> Xmi.canon_xmi s c'' = Xmi.canon_xmi s c ->
   XmiDoc.denote_xmi parse_flt s x = (do jv <- denote_json L s j ;; do v <- inline_of s jv ;; Ok (XmiDoc.norm_xmi s v)).
 Proof.
